@@ -35,7 +35,9 @@ Arguments N.land : simpl never.
 Arguments N.lor : simpl never.
 Arguments N.of_nat : simpl never.
 Arguments N.pred : simpl never.
-Ltac Zify.zify_post_hook ::= Z.div_mod_to_equations.
+Arguments N.succ : simpl never.
+(* div/mod by constants in [lia] goals; local: importers keep their own setting *)
+Local Ltac Zify.zify_post_hook ::= Z.div_mod_to_equations.
 
 (* ---------------------------------------------------------------------- *)
 (*  Little-endian integers                                                 *)
@@ -168,13 +170,6 @@ Ltac case_cmp :=
   | |- context [?a <? ?b] => destruct (N.ltb_spec a b)
   | |- context [?a <=? ?b] => destruct (N.leb_spec a b)
   | |- context [?a =? ?b] => destruct (N.eqb_spec a b)
-  end.
-
-Ltac case_cmp_in H :=
-  match type of H with
-  | context [?a <? ?b] => destruct (N.ltb_spec a b)
-  | context [?a <=? ?b] => destruct (N.leb_spec a b)
-  | context [?a =? ?b] => destruct (N.eqb_spec a b)
   end.
 
 Lemma enc_char_ok c : char_ok c = true <-> exists bs, enc_char c = Some bs.
@@ -356,6 +351,8 @@ Section ValInd.
     | VEnum idx p => HEnum idx p (val_ind' p)
     end.
 End ValInd.
+
+(* ---- small list facts ---- *)
 
 Lemma app_nonempty_l {A} (a b : list A) : a <> [] -> a ++ b <> [].
 Proof. destruct a; cbn; congruence. Qed.
@@ -888,6 +885,291 @@ Proof.
 Qed.
 
 (* ---------------------------------------------------------------------- *)
+(*  The stack-safe variants compute the same functions                     *)
+(* ---------------------------------------------------------------------- *)
+
+Lemma lenN_acc_spec {A} (l : list A) : forall acc, lenN_acc l acc = acc + N.of_nat (length l).
+Proof.
+  induction l as [|x l IH]; intros acc; cbn [lenN_acc length].
+  - lia.
+  - rewrite IH. lia.
+Qed.
+
+Lemma lenN_spec {A} (l : list A) : lenN l = N.of_nat (length l).
+Proof. unfold lenN. rewrite lenN_acc_spec. lia. Qed.
+
+Lemma pos_split_spec k : forall p,
+  pos_split k p = (Npos p mod 2 ^ N.of_nat k, Npos p / 2 ^ N.of_nat k).
+Proof.
+  induction k as [|k IH]; intros p.
+  - cbn [pos_split]. change (2 ^ N.of_nat 0) with 1. f_equal; lia.
+  - replace (2 ^ N.of_nat (S k)) with (2 * 2 ^ N.of_nat k)
+      by (rewrite Nat2N.inj_succ, N.pow_succ_r'; reflexivity).
+    assert (HP : 2 ^ N.of_nat k <> 0) by (apply N.pow_nonzero; discriminate).
+    cbn [pos_split]. destruct p as [p|p|].
+    + rewrite IH. rewrite N.succ_double_spec.
+      change (N.pos p~1) with (2 * N.pos p + 1).
+      generalize dependent (2 ^ N.of_nat k). intros P _ HP.
+      pose proof (N.div_mod (N.pos p) P HP) as E.
+      pose proof (N.mod_lt (N.pos p) P HP) as L.
+      f_equal.
+      * apply N.mod_unique with (q := N.pos p / P); lia.
+      * apply N.div_unique with (r := 2 * (N.pos p mod P) + 1); lia.
+    + rewrite IH. rewrite N.double_spec.
+      change (N.pos p~0) with (2 * N.pos p).
+      rewrite N.mul_mod_distr_l, N.div_mul_cancel_l by (auto; discriminate). reflexivity.
+    + rewrite N.mod_small, N.div_small by lia. reflexivity.
+Qed.
+
+Lemma split_byte_spec v : split_byte v = (v mod 256, v / 256).
+Proof.
+  destruct v as [|p]; [reflexivity|]. exact (pos_split_spec 8 p).
+Qed.
+
+Lemma le_push_spec n : forall v acc, le_push n v acc = rev (le_bytes n v) ++ acc.
+Proof.
+  induction n as [|n IH]; intros v acc; [reflexivity|].
+  change (le_bytes (S n) v) with (v mod 256 :: le_bytes n (v / 256)).
+  cbn [le_push rev]. rewrite split_byte_spec. rewrite IH, <- app_assoc. reflexivity.
+Qed.
+
+Lemma push_checked_spec bs : forall acc,
+  push_checked bs acc = if forallb byte_ok bs then Some (rev bs ++ acc) else None.
+Proof.
+  induction bs as [|b bs IH]; intros acc; cbn [push_checked forallb rev]; [reflexivity|].
+  destruct (byte_ok b); cbn [andb]; [|reflexivity].
+  rewrite IH, <- app_assoc. reflexivity.
+Qed.
+
+(* what an accumulator-passing encoder must do, given the result of the specification *)
+Definition into (o : option bytes) (acc : bytes) : option bytes :=
+  match o with
+  | Some bs => Some (rev bs ++ acc)
+  | None => None
+  end.
+
+Lemma enc_bytes_into_spec bs acc : enc_bytes_into bs acc = into (enc_bytes bs) acc.
+Proof.
+  unfold enc_bytes_into, enc_bytes; cbv zeta. rewrite lenN_spec.
+  destruct (len_ok _); cbn [andb]; [|reflexivity].
+  rewrite push_checked_spec. destruct (forallb byte_ok bs); [|reflexivity].
+  cbn [into]. rewrite le_push_spec, rev_app_distr, <- app_assoc. reflexivity.
+Qed.
+
+Section IntoItem.
+  Variable ei : val -> bytes -> option bytes.
+  Variable e : val -> option bytes.
+  Hypothesis ei_spec : forall v acc, ei v acc = into (e v) acc.
+
+  Lemma enc_list_into_spec l : forall acc, enc_list_into ei l acc = into (enc_list e l) acc.
+  Proof.
+    induction l as [|x l IH]; intros acc; cbn [enc_list_into enc_list]; [reflexivity|].
+    rewrite ei_spec. destruct (e x) as [a|]; cbn [into]; [|reflexivity].
+    rewrite IH. destruct (enc_list e l) as [b|]; cbn [into]; [|reflexivity].
+    rewrite rev_app_distr, <- app_assoc. reflexivity.
+  Qed.
+
+  Lemma enc_arr_into_spec n : forall l acc, enc_arr_into ei n l acc = into (enc_arr e n l) acc.
+  Proof.
+    induction n as [|n IH]; intros [|x l] acc; cbn [enc_arr_into enc_arr]; try reflexivity.
+    rewrite ei_spec. destruct (e x) as [a|]; cbn [into]; [|reflexivity].
+    rewrite IH. destruct (enc_arr e n l) as [b|]; cbn [into]; [|reflexivity].
+    rewrite rev_app_distr, <- app_assoc. reflexivity.
+  Qed.
+End IntoItem.
+
+Section IntoField.
+  Variable ef : ty -> val -> bytes -> option bytes.
+  Variable e : ty -> val -> option bytes.
+
+  Lemma enc_fields_into_spec ts :
+    Forall (fun t => forall v acc, ef t v acc = into (e t v) acc) ts ->
+    forall vs acc, enc_fields_into ef ts vs acc = into (enc_fields e ts vs) acc.
+  Proof.
+    induction 1 as [|t ts Ht _ IH]; intros [|v vs] acc; cbn [enc_fields_into enc_fields]; try reflexivity.
+    rewrite Ht. destruct (e t v) as [a|]; cbn [into]; [|reflexivity].
+    rewrite IH. destruct (enc_fields e ts vs) as [b|]; cbn [into]; [|reflexivity].
+    rewrite rev_app_distr, <- app_assoc. reflexivity.
+  Qed.
+
+  Lemma enc_variant_into_spec ts :
+    Forall (fun t => forall v acc, ef t v acc = into (e t v) acc) ts ->
+    forall idx p acc, enc_variant_into ef ts idx p acc = into (enc_variant e ts idx p) acc.
+  Proof.
+    induction 1 as [|t ts Ht _ IH]; intros idx p acc; cbn [enc_variant_into enc_variant]; [reflexivity|].
+    destruct (idx =? 0); auto.
+  Qed.
+End IntoField.
+
+Lemma enc_into_spec : forall t v acc, enc_into t v acc = into (enc t v) acc.
+Proof.
+  induction t using ty_ind'; intros v acc; destruct v; cbn [enc_into enc]; try reflexivity.
+  - unfold enc_int. destruct (fits n n0); cbn [into]; [|reflexivity].
+    rewrite le_push_spec. reflexivity.
+  - destruct (enc_char c); cbn [into]; [|reflexivity]. rewrite rev_append_rev. reflexivity.
+  - apply enc_bytes_into_spec.
+  - destruct o as [x|]; [|reflexivity].
+    rewrite IHt. destruct (enc t x) as [b|]; cbn [into rev]; [|reflexivity].
+    rewrite <- app_assoc. reflexivity.
+  - cbv zeta. rewrite lenN_spec. destruct (len_ok _); [|reflexivity].
+    rewrite (enc_list_into_spec _ _ IHt).
+    destruct (enc_list (enc t) l) as [b|]; cbn [into]; [|reflexivity].
+    rewrite le_push_spec, rev_app_distr, <- app_assoc. reflexivity.
+  - apply (enc_arr_into_spec _ _ IHt).
+  - apply (enc_fields_into_spec _ _ _ H).
+  - destruct (fits 4 idx); [|reflexivity].
+    rewrite (enc_variant_into_spec _ _ _ H).
+    destruct (enc_variant enc vs idx v) as [b|]; cbn [into]; [|reflexivity].
+    rewrite le_push_spec, rev_app_distr, <- app_assoc. reflexivity.
+Qed.
+
+Theorem enc_fast_eq : forall t v, enc_fast t v = enc t v.
+Proof.
+  intros t v. unfold enc_fast. rewrite enc_into_spec.
+  destruct (enc t v) as [bs|]; cbn [into]; [|reflexivity].
+  rewrite rev_append_rev, !app_nil_r, rev_involutive. reflexivity.
+Qed.
+
+Theorem wt_fast_eq : forall t v, wt_fast t v = wt t v.
+Proof.
+  intros t v. unfold wt_fast. rewrite enc_into_spec.
+  destruct (enc t v) as [bs|] eqn:E; cbn [into].
+  - symmetry. eapply enc_some_wt; eauto.
+  - destruct (wt t v) eqn:W; [|reflexivity].
+    destruct (enc_wt_gen _ _ W) as [bs E']. congruence.
+Qed.
+
+(* ---- decoder ---- *)
+
+Lemma takeN_acc_spec bs : forall k acc,
+  takeN_acc k bs acc =
+  match takeN k bs with
+  | Some (h, r) => Some (rev acc ++ h, r)
+  | None => None
+  end.
+Proof.
+  induction bs as [|b bs IH]; intros k acc; cbn [takeN_acc takeN].
+  - destruct (k =? 0); [|reflexivity]. rewrite rev_append_rev. reflexivity.
+  - destruct (k =? 0); [rewrite rev_append_rev; reflexivity|].
+    destruct (byte_ok b); [|reflexivity].
+    rewrite IH. destruct (takeN (N.pred k) bs) as [[h r]|]; [|reflexivity].
+    cbn [rev]. rewrite <- app_assoc. reflexivity.
+Qed.
+
+Lemma dec_bytes_fast_eq bs : dec_bytes_fast bs = dec_bytes bs.
+Proof.
+  unfold dec_bytes_fast, dec_bytes. destruct (dec_int 8 bs) as [[n r]|]; [|reflexivity].
+  rewrite takeN_acc_spec. destruct (takeN n r) as [[h t]|]; reflexivity.
+Qed.
+
+Section DecExt.
+  Variable d1 d2 : bytes -> option (val * bytes).
+  Hypothesis ext : forall bs, d1 bs = d2 bs.
+
+  Lemma dec_arr_ext n : forall bs, dec_arr d1 n bs = dec_arr d2 n bs.
+  Proof.
+    induction n as [|n IH]; intros bs; cbn [dec_arr]; [reflexivity|].
+    rewrite ext. destruct (d2 bs) as [[x r]|]; [|reflexivity]. rewrite IH. reflexivity.
+  Qed.
+
+  Lemma dec_seq_acc_spec budget : forall k bs acc,
+    dec_seq_acc d1 budget k bs acc =
+    match dec_seq d2 budget k bs with
+    | Some (xs, r) => Some (rev acc ++ xs, r)
+    | None => None
+    end.
+  Proof.
+    induction budget as [|b0 budget IH]; intros k bs acc; cbn [dec_seq_acc dec_seq].
+    - destruct (k =? 0); [|reflexivity]. rewrite rev_append_rev. reflexivity.
+    - destruct (k =? 0); [rewrite rev_append_rev; reflexivity|].
+      rewrite ext. destruct (d2 bs) as [[x r]|]; [|reflexivity].
+      rewrite IH. destruct (dec_seq d2 budget (N.pred k) r) as [[xs r']|]; [|reflexivity].
+      cbn [rev]. rewrite <- app_assoc. reflexivity.
+  Qed.
+End DecExt.
+
+Section DecFieldExt.
+  Variable d1 d2 : ty -> bytes -> option (val * bytes).
+
+  Lemma dec_fields_ext ts :
+    Forall (fun t => forall bs, d1 t bs = d2 t bs) ts ->
+    forall bs, dec_fields d1 ts bs = dec_fields d2 ts bs.
+  Proof.
+    induction 1 as [|t ts Ht _ IH]; intros bs; cbn [dec_fields]; [reflexivity|].
+    rewrite Ht. destruct (d2 t bs) as [[x r]|]; [|reflexivity]. rewrite IH. reflexivity.
+  Qed.
+
+  Lemma dec_variant_ext ts :
+    Forall (fun t => forall bs, d1 t bs = d2 t bs) ts ->
+    forall idx bs, dec_variant d1 ts idx bs = dec_variant d2 ts idx bs.
+  Proof.
+    induction 1 as [|t ts Ht _ IH]; intros idx bs; cbn [dec_variant]; [reflexivity|].
+    destruct (idx =? 0); auto.
+  Qed.
+End DecFieldExt.
+
+Theorem dec_fast_eq : forall t bs, dec_fast t bs = dec t bs.
+Proof.
+  induction t using ty_ind'; intros bs; cbn [dec_fast dec]; try reflexivity.
+  - rewrite dec_bytes_fast_eq. reflexivity.
+  - destruct bs as [|tag r]; [reflexivity|]. rewrite IHt. reflexivity.
+  - destruct (dec_int 8 bs) as [[k r]|]; [|reflexivity].
+    rewrite (dec_seq_acc_spec _ _ IHt). destruct (dec_seq (dec t) r k r) as [[l r']|]; reflexivity.
+  - rewrite (dec_arr_ext _ _ IHt). reflexivity.
+  - rewrite (dec_fields_ext _ _ _ H). reflexivity.
+  - destruct (dec_int 4 bs) as [[idx r]|]; [|reflexivity].
+    rewrite (dec_variant_ext _ _ _ H). reflexivity.
+Qed.
+
+Theorem enc_reflect_fast_eq : forall path t v, enc_reflect_fast path t v = enc_reflect path t v.
+Proof.
+  intros path t v. unfold enc_reflect_fast, enc_reflect.
+  rewrite enc_bytes_into_spec. destruct (enc_bytes path) as [p|]; cbn [into]; [|reflexivity].
+  rewrite enc_into_spec. destruct (enc t v) as [b|]; cbn [into]; [|reflexivity].
+  rewrite le_push_spec, rev_append_rev, !app_nil_r, !rev_app_distr, !rev_involutive, <- app_assoc.
+  reflexivity.
+Qed.
+
+Theorem dec_reflect_fast_eq : forall lookup bs, dec_reflect_fast lookup bs = dec_reflect lookup bs.
+Proof.
+  intros lookup bs. unfold dec_reflect_fast, dec_reflect.
+  destruct (dec_int 8 bs) as [[c r]|]; [|reflexivity].
+  destruct (c =? 1); [|reflexivity].
+  rewrite dec_bytes_fast_eq. destruct (dec_bytes r) as [[p r']|]; [|reflexivity].
+  destruct (lookup p) as [t|]; [|reflexivity].
+  rewrite dec_fast_eq. reflexivity.
+Qed.
+
+(* the round-trip theorems, restated for the functions that are actually run *)
+
+Corollary dec_fast_enc_fast : forall t v bs rest,
+  wf_ty t = true -> enc_fast t v = Some bs -> dec_fast t (bs ++ rest) = Some (v, rest).
+Proof. intros t v bs rest W E. rewrite enc_fast_eq in E. rewrite dec_fast_eq. apply dec_enc; assumption. Qed.
+
+Corollary enc_fast_dec_fast : forall t bs v rest,
+  dec_fast t bs = Some (v, rest) -> exists pre, enc_fast t v = Some pre /\ bs = pre ++ rest.
+Proof.
+  intros t bs v rest D. rewrite dec_fast_eq in D.
+  destruct (enc_dec_gen _ _ _ _ D) as (pre & E & ->).
+  exists pre. rewrite enc_fast_eq. auto.
+Qed.
+
+Corollary reflect_roundtrip_fast : forall lookup path t v bs rest,
+  lookup path = Some t -> wf_ty t = true ->
+  enc_reflect_fast path t v = Some bs ->
+  dec_reflect_fast lookup (bs ++ rest) = Some (path, v, rest).
+Proof.
+  intros lookup path t v bs rest Lk W E.
+  rewrite enc_reflect_fast_eq in E. rewrite dec_reflect_fast_eq.
+  assert (Forall (fun b => b < 256) path) as F.
+  { unfold enc_reflect, enc_bytes in E; cbv zeta in E.
+    destruct (len_ok _); cbn [andb] in E; [|discriminate].
+    destruct (forallb byte_ok path) eqn:B; [|discriminate].
+    apply forallb_byte_ok; exact B. }
+  eapply reflect_roundtrip; eauto.
+Qed.
+
+(* ---------------------------------------------------------------------- *)
 (*  A use of [val_ind']: equality of values is decidable                   *)
 (* ---------------------------------------------------------------------- *)
 
@@ -997,6 +1279,20 @@ Example ex_wf :
   /\ wf_ty (TSeq (TTuple [TUnit; TInt 1])) = true.
 Proof. vm_compute; auto. Qed.
 
+(* the stack-safe variants on the same data *)
+Example ex_fast :
+  enc_fast (TTuple [TInt 4; TBytes; TSeq (TArr 2 (TInt 4)); TEnum [TUnit; TTuple [TInt 1]]; TChar])
+           (VTuple [VInt 3; VBytes [110;97;109;101]; VSeq [VArr [VInt 1; VInt 2]];
+                    VEnum 1 (VTuple [VInt 7]); VChar 0x20AC])
+  = Some [3;0;0;0; 4;0;0;0;0;0;0;0; 110;97;109;101;
+          1;0;0;0;0;0;0;0; 1;0;0;0; 2;0;0;0; 1;0;0;0;7; 0xE2;0x82;0xAC]
+  /\ dec_fast (TTuple [TInt 4; TBytes; TSeq (TArr 2 (TInt 4)); TEnum [TUnit; TTuple [TInt 1]]; TChar])
+         [3;0;0;0; 4;0;0;0;0;0;0;0; 110;97;109;101;
+          1;0;0;0;0;0;0;0; 1;0;0;0; 2;0;0;0; 1;0;0;0;7; 0xE2;0x82;0xAC; 5]
+  = Some (VTuple [VInt 3; VBytes [110;97;109;101]; VSeq [VArr [VInt 1; VInt 2]];
+                  VEnum 1 (VTuple [VInt 7]); VChar 0x20AC], [5]).
+Proof. vm_compute; auto. Qed.
+
 (* ---------------------------------------------------------------------- *)
 
 Print Assumptions le_value_le_bytes.
@@ -1011,4 +1307,12 @@ Print Assumptions enc_dec.
 Print Assumptions dec_wt.
 Print Assumptions reflect_roundtrip.
 Print Assumptions reflect_canonical.
+Print Assumptions enc_fast_eq.
+Print Assumptions dec_fast_eq.
+Print Assumptions wt_fast_eq.
+Print Assumptions enc_reflect_fast_eq.
+Print Assumptions dec_reflect_fast_eq.
+Print Assumptions dec_fast_enc_fast.
+Print Assumptions enc_fast_dec_fast.
+Print Assumptions reflect_roundtrip_fast.
 Print Assumptions val_eq_dec_prop.
